@@ -73,7 +73,7 @@ def _variant(rng, base, th, ob, pools):
 
 def _mutate_settings(rng, th, ob):
     th, ob = copy.deepcopy(th), copy.deepcopy(ob)
-    k = rng.choice(["nfff", "tmc", "target", "n3lo", "fns", "sv", "proj"])
+    k = rng.choice(["nfff", "tmc", "target", "n3lo", "fns", "sv", "proj", "neargrid", "neargrid"])
     if k == "nfff":
         th["NfFF"] = {3: 4, 4: 3, 5: 4}[th["NfFF"]]
     elif k == "tmc":
@@ -87,6 +87,14 @@ def _mutate_settings(rng, th, ob):
         th["FNS"] = rng.choice([f for f in ("ZM-VFNS", "FFNS") if f != th["FNS"]])
     elif k == "sv":
         th["FactScaleVar"] = not th.get("FactScaleVar", True)
+    elif k == "neargrid":
+        # a grid that differs from the first runner's only in the 7th digit of one inner node (the same
+        # grid written to a file with limited precision): anything that recognises grids "up to
+        # tolerance" across runners of one process computes on the wrong grid
+        g = list(ob["interpolation_xgrid"])
+        j = rng.randrange(1, len(g) - 1)
+        g[j] = g[j] * (1.0 + rng.choice([1e-7, -1e-7, 3e-6]))
+        ob["interpolation_xgrid"] = g
     elif k == "proj":
         ob["ProjectileDIS"] = "positron" if ob.get("ProjectileDIS", "electron") == "electron" else "electron"
     return th, ob
@@ -438,6 +446,27 @@ def _clear_globals():
         pass
 
 
+def _decoy_runner():
+    """Part of the canonical history of a reference: after the known process-global memos are cleared, a
+    runner with entirely different settings (3-node linear grid, LO, EM, another target) is *constructed* and
+    dropped.  On a tree where the property holds this cannot matter; on a tree that keeps some "last used"
+    object at process level (an interpolator, a coupling table, a registry) it displaces that object, so that the
+    reference is not contaminated by the very history it is meant to judge (seeded change
+    c20-recycled-interpolator-allclose made this necessary: it was invisible to C14 without it)."""
+    import yadism
+
+    th = cards.base_theory()
+    th.update(PTO=0, FNS="ZM-VFNS", TMC=0, RenScaleVar=False, FactScaleVar=False, MP=1.1, mc=1.3, mb=4.0)
+    ob = cards.base_obs()
+    ob.update(interpolation_xgrid=[0.3, 0.6, 1.0], interpolation_polynomial_degree=1, interpolation_is_log=False,
+              prDIS="EM", TargetDIS={"Z": 2.0, "A": 5.0}, ProjectileDIS="positron", PolarizationDIS=0.25,
+              observables={"FL_light": [{"x": 0.5, "Q2": 7.0}]})
+    try:
+        yadism.Runner(th, ob)
+    except Exception:  # noqa: BLE001 - the decoy is best effort
+        pass
+
+
 def _exc_name(e):
     return type(e).__name__
 
@@ -467,6 +496,7 @@ class RefTable:
         self.sched.quiet += 1
         try:
             _clear_globals()
+            _decoy_runner()
             obs = [] if name is None else [[name, [point]]]
             th, ob = _mk_card(self.settings[s], obs)
             try:
